@@ -66,16 +66,20 @@ pub fn child_main(prop: &str, tier: Tier, seed: u64, out: &Path, hb_dir: &Path, 
     let threads = if prop == "C15" { 1 } else { jobs() };
     let counter = AtomicU64::new(0);
     let stop = AtomicBool::new(false);
-    let viols: Mutex<Vec<(u64, Viol)>> = Mutex::new(Vec::new());
+    #[allow(clippy::type_complexity)]
+    let viols: Mutex<(Vec<(u64, Viol)>, BTreeMap<String, usize>, BTreeMap<(String, u64), usize>)> =
+        Mutex::new((Vec::new(), BTreeMap::new(), BTreeMap::new()));
     let viol_total = AtomicU64::new(0);
+    let unknown_total = AtomicU64::new(0);
+    let known_open: Vec<KnownEntry> = load_known().into_iter().filter(|k| k.status == "open").collect();
     let nondet: Mutex<Vec<u64>> = Mutex::new(Vec::new());
     let merged: Mutex<Stats> = Mutex::new(Stats::default());
     let t0 = Instant::now();
     let _ = std::fs::create_dir_all(hb_dir);
     std::thread::scope(|sc| {
         for t in 0..threads {
-            let (counter, stop, viols, viol_total, nondet, merged, spec, skip) =
-                (&counter, &stop, &viols, &viol_total, &nondet, &merged, &spec, &skip);
+            let (counter, stop, viols, viol_total, unknown_total, known_open, nondet, merged, spec, skip) =
+                (&counter, &stop, &viols, &viol_total, &unknown_total, &known_open, &nondet, &merged, &spec, &skip);
             let hb_path = hb_dir.join(format!("hb.{t}"));
             std::thread::Builder::new()
                 .stack_size(STACK_BYTES)
@@ -126,16 +130,30 @@ pub fn child_main(prop: &str, tier: Tier, seed: u64, out: &Path, hb_dir: &Path, 
                             }
                         }
                         if !vs.is_empty() {
-                            let n = viol_total.fetch_add(vs.len() as u64, Ordering::Relaxed);
+                            // instances of an open known finding do not count towards the early stop, and they
+                            // have a sample quota of their own: a finding with thousands of instances must
+                            // neither end the run before the cases that would show something else have been
+                            // executed nor crowd those out of the sample that is minimised and reported
+                            let known_id = |v: &Viol| -> Option<&str> {
+                                known_open
+                                    .iter()
+                                    .find(|k| k.property == v.property && crate::known::matches(&k.predicate, v))
+                                    .map(|k| k.id.as_str())
+                            };
+                            let unknown = vs.iter().filter(|v| known_id(v).is_none()).count() as u64;
+                            viol_total.fetch_add(vs.len() as u64, Ordering::Relaxed);
+                            let n = unknown_total.fetch_add(unknown, Ordering::Relaxed) + unknown;
                             let mut g = viols.lock().unwrap();
                             for v in vs {
-                                // keep a few per signature
-                                // keep a varied sample: at most 40 per signature, at most 2 from one case description
-                                let sig = v.signature();
-                                let same_sig = g.iter().filter(|x| x.1.signature() == sig).count();
-                                let same_case = g.iter().filter(|x| x.1.signature() == sig && x.0 == idx).count();
+                                // keep a varied sample: at most 40 per signature (and per known finding), at most
+                                // 2 from one case description
+                                let bucket = format!("{}#{}", v.signature(), known_id(&v).unwrap_or(""));
+                                let same_sig = g.1.get(&bucket).copied().unwrap_or(0);
+                                let same_case = g.2.get(&(bucket.clone(), idx)).copied().unwrap_or(0);
                                 if same_sig < 40 && same_case < 2 {
-                                    g.push((idx, v));
+                                    *g.1.entry(bucket.clone()).or_insert(0) += 1;
+                                    *g.2.entry((bucket, idx)).or_insert(0) += 1;
+                                    g.0.push((idx, v));
                                 }
                             }
                             if n > 20_000 {
@@ -158,7 +176,7 @@ pub fn child_main(prop: &str, tier: Tier, seed: u64, out: &Path, hb_dir: &Path, 
         n_nontrivial: stats.nontrivial.len() as u64,
         n_schedules: stats.schedules.len() as u64,
         stats,
-        viols: viols.into_inner().unwrap().into_iter().map(|x| x.1).collect(),
+        viols: viols.into_inner().unwrap().0.into_iter().map(|x| x.1).collect(),
         viol_total: viol_total.load(Ordering::Relaxed),
         nondeterministic: nondet.into_inner().unwrap(),
         wall_s: t0.elapsed().as_secs_f64(),
